@@ -49,6 +49,14 @@ CHECKS.update({
         text="Finite pool of variant pairs differing in exactly one semantically relevant aspect (function body edited on disk, closure value; shell executable/argstr/position/sep/formatter; input content/type/nesting; numpy shape/dtype/content) x seeded histories of 2-8 submissions of both members and unrelated tasks into one cache root (orders, repeats, reruns, both workers); oracle: every returned output equals executing now (function called / argv run directly) and the pair's cache identities differ.",
         note=HIST_NOTE + " The pair pool is finite and listed in the evidence; aspects outside it are not covered.",
         technique="deterministic simulation: seeded submission histories against an executable value model", ref="8/C06"),
+    "C07": dict(engine="sessim", category="exploration",
+        text="Generated programs (~40 steps) executed by three fresh interpreter sessions with different PYTHONHASHSEEDs and different dict/set insertion orders: hashes of generated values (nested containers incl. frozensets of frozensets and mixed-type sets, numbers, strings, bytes, paths, numpy arrays, files; optionally after a cloudpickle round trip), task checksums, an xor-group task submitted split, and real submissions that later sessions must find in the renamed cache root without executing any body.",
+        note="Nothing is stubbed inside a session; the searched dimension is the hash seed, insertion order, pickling and cache-root path. Sampling of values from a generator.",
+        technique="deterministic simulation: interpreter sessions as nodes sharing only durable state, seeded programs and hash seeds", ref="8/C07"),
+    "C29": dict(engine="sessim", category="exploration",
+        text="(task, submitter configuration) pairs are built and cloudpickled in one fresh interpreter, unpickled/compared/run (load_and_run) in a second with another hash seed, and the result file is read back in a third: equal checksum, equal public submitter/worker state (debug, cf, slurm, sge configurations, read-only caches, audit flags, max_concurrent), outputs equal to an in-session run. Every job of the simloop checks additionally crosses cp.dumps -> worker process -> result file -> parent.",
+        note="Nothing is stubbed inside a session. 'Public state' is the worker's attrs fields (minus loop/pool/internal dicts) and the submitter's configuration attributes.",
+        technique="deterministic simulation: interpreter sessions as nodes exchanging pickled jobs and result files", ref="8/C29"),
     "C09": dict(engine="histsim", category="exploration",
         text="Seeded histories of file operations (write same/different size, advance clock by less/more than the resolution, restore mtime, rename over, copy preserving timestamps) interleaved with hash computations and task submissions, for files and a directory, under a simulated file-system clock with per-run timestamp resolution 1 ns .. 2 s; oracle: every hash equals the hash computed with an empty persistent cache, a submission returns the current content.",
         note="Kernel timestamps of tracked inodes and time.time/datetime.now are replaced by the simulated clock; POSIX timestamp semantics assumed (mtime settable, ctime not).",
@@ -137,6 +145,7 @@ def main():
         },
         "engines": [
             {"name": "lockstep", "path": "/verif/simlib/lockstep.py", "serves_properties": [p for p in claimed if CHECKS[p]["engine"].startswith("lockstep")], "kind_free_text": "real forked processes single-stepped by a seeded controller (sys.settrace line points, simulated sleep/clock, chunked writes, SIGKILL crashes)"},
+            {"name": "sessim", "path": "/verif/simlib/session.py", "serves_properties": [p for p in claimed if CHECKS[p]["engine"].startswith("sessim")], "kind_free_text": "fresh interpreter sessions (chosen PYTHONHASHSEED) executing generated programs; sessions share only durable state (cache roots, pickled jobs, result files)"},
             {"name": "histsim", "path": "/verif/checks/histcommon.py", "serves_properties": [p for p in claimed if CHECKS[p]["engine"].startswith("histsim")], "kind_free_text": "seeded operation histories through pydra's public API checked against small executable reference models; simulated clock / FS clock / exception seams where the property needs them"},
             {"name": "cluster", "path": "/verif/simlib/cluster.py", "serves_properties": [p for p in claimed if "cluster" in CHECKS[p]["engine"]], "kind_free_text": "fake SLURM/SGE command-line tools and scheduler behind asyncio.create_subprocess_exec, payloads run in lockstep actors"},
             {"name": "simloop", "path": "/verif/simlib/simloop.py", "serves_properties": [p for p in claimed if CHECKS[p]["engine"].startswith("simloop")], "kind_free_text": "virtual-time asyncio.BaseEventLoop subclass running the real Submitter; ProcessPoolExecutor replaced by a pool of lockstep actors; controller traced at line granularity"},
